@@ -66,6 +66,8 @@ def _serve_decode(short, vals, meta):
         return decode.decode_precond(meta["precond"][short], vals)
     if short in meta["mp"]:
         return decode.decode_mp(meta["mp"][short], vals)
+    if short.startswith("prep_unit_"):
+        return decode.decode_prep(short, vals)
     return None
 
 
@@ -73,8 +75,8 @@ KANI_LIGHT = ["--no-memory-safety-checks", "--no-assertion-reach-checks", "-Z", 
 
 
 # (instances with entity headers in the parts -- prep_unit_n2_h1/h2, n3_h1 -- exhaust 24 GB and are not registered)
-PREP_UNITS = {"quick": ["prep_unit_n2_noincl"],
-              "thorough": ["prep_unit_n2_noincl", "prep_unit_n2_h0", "prep_unit_n3_noincl"]}
+PREP_UNITS = {"quick": ["prep_unit_n2_noincl_req", "prep_unit_n2_noincl_any"],
+              "thorough": ["prep_unit_n2_noincl_req", "prep_unit_n2_noincl_any", "prep_unit_n2_h0_req", "prep_unit_n2_h0_any", "prep_unit_n3_noincl_req", "prep_unit_n3_noincl_any"]}
 
 
 def unit_serve(select, panic_tags=("C13",), precond=False, mp=None, prep=False, qkey=None, qcap=1):
